@@ -1,11 +1,13 @@
 (* C01 — Tumbling windows count every accepted event exactly once, in its own window.
-   Only statements, each closed by [exact]; proofs live in Proofs/TumblingProofs.v. *)
-From Coq Require Import Lia.
-From SV Require Import Model.Tumbling Proofs.TumblingProofs.
+   Only statements, each closed by [exact]; proofs live in Proofs/Tumbling*.v.
+   A history [h : list op] is a list of atomic steps (Add / watermark received / one firing /
+   tick): quantifying over all h quantifies over every interleaving of the ingest goroutine
+   with the watermark/trigger goroutine at lock granularity. *)
+From Coq Require Import Lia Sorted.
+From SV Require Import Model.Tumbling Proofs.TumblingProofs Proofs.TumblingComplete Proofs.TumblingPT.
 
 (* every batch is a size-aligned half-open interval [k*size,(k+1)*size) and holds only rows that
-   were added with a timestamp inside it -- for every configuration and every interleaving of
-   Add / watermark delivery / firing steps *)
+   were added with a timestamp inside it *)
 Theorem C01_membership : forall c h s tr,
   0 < size c -> run c st0 h = (s, tr) ->
   forall b, In (EvBatch b) tr ->
@@ -13,3 +15,61 @@ Theorem C01_membership : forall c h s tr,
     forall r, In r (b_rows b) -> b_start b <= rts r < b_end b /\ added h r.
 Proof. exact tumbling_membership. Qed.
 Print Assumptions C01_membership.
+
+(* first firings are reported in increasing order and never overlap: no interval is reported
+   twice and (with membership) no row is counted in two intervals *)
+Theorem C01_no_interval_twice : forall c h s tr,
+  0 < size c -> Forall nonneg_op h -> run c st0 h = (s, tr) ->
+  StronglySorted (fun a b => b_end a <= b_start b) (firsts tr).
+Proof. intros c h s tr Hs Hn Hr. exact (proj1 (run_sorted c Hs h st0 s tr (Inv_st0 c) Hn Hr)). Qed.
+Print Assumptions C01_no_interval_twice.
+
+(* an on-time row (not late on arrival) is reported in the batch of its own interval as soon as
+   the current interval has moved past it ... *)
+Theorem C01_on_time_complete : forall c h1 id ts now h2 s1 tr1 s tr,
+  0 < size c ->
+  Forall nonneg_op (h1 ++ Add id ts now :: h2) ->
+  run c st0 h1 = (s1, tr1) ->
+  is_late ts (update_event_time (ooo c) now ts (w s1)) = false ->
+  run c st0 (h1 ++ Add id ts now :: h2) = (s, tr) ->
+  ts < slot s ->
+  exists b, In (EvBatch b) tr /\ b_start b = align ts (size c) /\ In (id, ts) (b_rows b).
+Proof. intros c h1 id ts now h2 s1 tr1 s tr Hs. exact (on_time_complete c Hs h1 id ts now h2 s1 tr1 s tr). Qed.
+Print Assumptions C01_on_time_complete.
+
+(* ... which is the case once a watermark >= the interval's end has been handled to its end *)
+Theorem C01_watermark_moves_slot : forall c s s' evs wmk ts,
+  0 < size c -> Inv c s -> init s = true -> pend s = Some wmk -> fire_step c s = (s', evs) -> In EvDE evs ->
+  Inv c s' -> 0 <= ts -> align ts (size c) + size c <= wmk -> ts < slot s'.
+Proof. exact watermark_moves_slot. Qed.
+Print Assumptions C01_watermark_moves_slot.
+
+(* processing time: under the ticker's schedule every row is reported, in the batch of the
+   size-aligned interval of its Add time, and every batch is such an interval *)
+Theorem C01_processing_time_complete : forall c h1 id now h2,
+  0 < size c -> sched_ok c pst0 (h1 ++ PAdd id now :: h2) ->
+  let '(s, tr) := prun c pst0 (h1 ++ PAdd id now :: h2) in
+  now < p_slot s -> exists b, In (EvBatch b) tr /\ b_start b = align now (size c) /\ In (id, now) (b_rows b).
+Proof. intros c h1 id now h2 Hs. exact (pt_complete c Hs h1 id now h2). Qed.
+Print Assumptions C01_processing_time_complete.
+
+Theorem C01_processing_time_membership : forall c h,
+  0 < size c -> sched_ok c pst0 h ->
+  forall b, In (EvBatch b) (snd (prun c pst0 h)) ->
+    b_end b = b_start b + size c /\ (exists k, b_start b = k * size c) /\
+    forall r, In r (b_rows b) -> b_start b <= rts r < b_end b.
+Proof. intros c h Hs Hok. exact (pt_membership c Hs h pst0 (InvP_0 c) Hok). Qed.
+Print Assumptions C01_processing_time_membership.
+
+(* non-vacuity: two fired windows, a boundary timestamp, an on-time row older than the first
+   row's interval (the repaired defect), a late drop, a delivery between Adds *)
+Definition ex_cfg : cfg := {| size := 1000; ooo := 2000; lateness := 0; idle := 0 |}.
+Definition ex_hist : list op :=
+  [Add 1 10500 0; Add 2 9200 0; Add 3 11000 0; DeliverBegin; FireStep; Add 4 20000 0; Add 5 100 0;
+   DeliverBegin; FireStep; DeliverBegin; FireStep; DeliverBegin; FireStep; FireStep; FireStep; FireStep].
+Example C01_example :
+  batches (snd (run ex_cfg st0 ex_hist)) =
+  [ {| b_start := 9000; b_end := 10000; b_rows := [(2, 9200)]; b_late := false |};
+    {| b_start := 10000; b_end := 11000; b_rows := [(1, 10500)]; b_late := false |};
+    {| b_start := 11000; b_end := 12000; b_rows := [(3, 11000)]; b_late := false |} ].
+Proof. vm_compute. reflexivity. Qed.
